@@ -36,3 +36,15 @@ func init() {
 		Rules:   []string{"C04.R1", "C04.R2", "C04.R3", "C04.R4", "C04.R5"},
 		Explain: "tbd", NotDecided: []string{"tbd"}})
 }
+
+func init() {
+	registerProperty(&PropertyDef{ID: "C07", Title: "Every finite result fits the context it was computed in",
+		Rules:   []string{"C07.R1", "C07.R2", "C07.R3", "C07.R4"},
+		Explain: "tbd", NotDecided: []string{"tbd"}})
+}
+
+func init() {
+	registerProperty(&PropertyDef{ID: "C08", Title: "Special values follow the decimal arithmetic rules in every operation",
+		Rules:   []string{"C08.R1", "C08.R2", "C08.R3", "C08.R4", "C08.R5"},
+		Explain: "tbd", NotDecided: []string{"tbd"}})
+}
